@@ -129,7 +129,7 @@ namespace
                     runtime.__logmsg(logmessage::runtime::ArraySizeChanged(frame.diag_info_from_position(), m_size, m_array->size()));
                     m_size = m_array->size();
                 }
-                if (++m_index == m_size)
+                if (++m_index >= m_size)
                 {
                     runtime.context_active().push_value(m_count);
                     return result::ok;
@@ -549,7 +549,7 @@ namespace
                     runtime.__logmsg(logmessage::runtime::ArraySizeChanged(frame.diag_info_from_position(), m_size, m_array->size()));
                     m_size = m_array->size();
                 }
-                if (++m_index == m_size)
+                if (++m_index >= m_size)
                 {
                     return result::ok;
                 }
@@ -708,7 +708,7 @@ namespace
                     runtime.__logmsg(logmessage::runtime::ArraySizeChanged(frame.diag_info_from_position(), m_size, m_array->size()));
                     m_size = m_array->size();
                 }
-                if (++m_index == m_size)
+                if (++m_index >= m_size)
                 {
                     runtime.context_active().push_value(m_out);
                     return result::ok;
@@ -932,7 +932,7 @@ namespace
                     runtime.__logmsg(logmessage::runtime::ArraySizeChanged(frame.diag_info_from_position(), m_size, m_array->size()));
                     m_size = m_array->size();
                 }
-                if (++m_index == m_size)
+                if (++m_index >= m_size)
                 {
                     runtime.context_active().push_value(-1);
                     return result::ok;
@@ -1164,7 +1164,7 @@ namespace
                     runtime.__logmsg(logmessage::runtime::ArraySizeChanged(frame.diag_info_from_position(), m_size, m_array->size()));
                     m_size = m_array->size();
                 }
-                if (++m_index == m_size)
+                if (++m_index >= m_size)
                 {
                     runtime.context_active().push_value(m_out);
                     return result::ok;
